@@ -37,8 +37,8 @@ Proof. exact stream_recovery_visible. Qed.
 Print Assumptions C16_path_stream_recovery.
 
 (* 3. cache recovery scan + buffered *)
-Theorem C16_path_cache_recovery : forall V hist_rev top cmd epoch_eq live recovered pubs,
-  cache_recovery V hist_rev top cmd epoch_eq live = SReply recovered pubs ->
+Theorem C16_path_cache_recovery : forall V hist_rev top cmd epoch_eq req_delta live recovered pubs,
+  cache_recovery V hist_rev top cmd epoch_eq req_delta live = SReply recovered pubs ->
   forall p, In p pubs -> visible V (p_id p) = true.
 Proof. exact cache_recovery_visible. Qed.
 Print Assumptions C16_path_cache_recovery.
@@ -126,7 +126,7 @@ Example C16_ex_stream_recovery :
   = SReply true [mkPub 3 false 2; mkPub 6 false 2].
 Proof. vm_compute. reflexivity. Qed.
 Example C16_ex_cache_recovery :
-  cache_recovery exV [mkPub 4 false 1; mkPub 3 false 2] 4 0 false []
+  cache_recovery exV [mkPub 4 false 1; mkPub 3 false 2] 4 0 false false []
   = SReply true [mkPub 3 false 2].
 Proof. vm_compute. reflexivity. Qed.
 Example C16_ex_map_live :
